@@ -431,7 +431,10 @@ class InstallStream(Stream):
             "allow_all_imports is a YAML edit + update_yaml_config) are observed and judged; between passes histories contain "
             "Home Assistant restarts (entry reloaded from the persisted data, then the real YAML import flow with the stored entry "
             "present) and YAML reloads, and the record must survive them; the fake installer FAILS (RequirementsNotFound) for chosen "
-            "packages and the record may only contain what is installed when the run ends; random histories with external "
+            "packages and the record may only contain what is installed when the run ends; a second actor flips allow_all_imports "
+            "(YAML edit + reload through pyscript's own update_yaml_config) while the run is suspended in the file scan (executor job) "
+            "or in the installer call, and the user's setting must survive the run; deterministic blocks where the record shrinks to "
+            "nothing (last tracked package taken over or removed by the host); random histories with external "
             "installs/upgrades/removals between runs, changing requirement files, packages missing from the index; non-trivial = a "
             "package is both required and installed or recorded, or a later run follows an installing run; distinct by the whole history")
     requires = "From PV Require Import Req.Merge Req.Install Req.Spec Req.ReqCheck.\nFrom Coq Require Import String.\nOpen Scope string_scope."
@@ -459,6 +462,26 @@ class InstallStream(Stream):
                                       "rec0": None if recd is None else [["foo", recd]], "steps": [step, dict(step)]})
         if len(cases) > budget * 0.45:
             cases = rng.sample(cases, int(budget * 0.45))
+        # (a3) the user flips allow_all_imports while a run is suspended (file scan / installer call), then a further requirement
+        for point in ("install", "scan"):
+            for first, flip in ((True, False), (False, True)):
+                fa = [{"id": 0, "dir": "", "lines": ["pkg-a==1.0"]}]
+                fb = [{"id": 0, "dir": "", "lines": ["pkg-a==1.0", "pkg-b==2.0"]}]
+                cases.append({"profile": "interleave", "env0": [], "rec0": rng.choice([None, []]), "steps": [
+                    {"ext": [], "allow": first, "files": fa, "index": [], "during": {point: flip}},
+                    {"ext": [], "allow": flip, "files": fb, "index": []},
+                    {"ext": [], "allow": flip, "files": fb, "index": [], "pre": ["restart"]}]})
+        # (a4) the record shrinks to nothing: the only tracked package is taken over (or removed) by the host, later the host's
+        #      version coincides with the stale one and the pin differs
+        for nrec in (1, 2):
+            for takeover in ("2.0", None):
+                fs = [{"id": 0, "dir": "", "lines": ["pkg-a==1.0"] + (["bar==1.0"] if nrec == 2 else [])}]
+                f15 = [{"id": 0, "dir": "", "lines": ["pkg-a==1.5"] + (["bar==1.0"] if nrec == 2 else [])}]
+                cases.append({"profile": "shrink", "env0": [], "rec0": rng.choice([None, []]), "steps": [
+                    {"ext": [], "allow": True, "files": fs, "index": []},
+                    {"ext": [["pkg-a", takeover]] + ([["bar", "3.0"]] if nrec == 2 else []), "allow": True, "files": fs, "index": []},
+                    {"ext": [], "allow": True, "files": fs, "index": []},
+                    {"ext": [["pkg-a", "1.0"]], "allow": True, "files": f15, "index": []}]})
         # (a2) a failing installer, then the host installs the package itself and the pin moves; a Home Assistant restart
         #      (or YAML reload) between an installing pass and a pass whose pin moved
         for v1, v2 in (("1.0", "1.1"), ("2.0", "1.9"), ("1.0", "1.0.0")):
@@ -510,6 +533,13 @@ class InstallStream(Stream):
                     step["pre"] = rng.choice([["reload"], ["reload", "restart"], ["restart", "reload"]])
                 if rng.random() < 0.15:
                     step["fail"] = [p for p in pk if rng.random() < 0.5]
+                r = rng.random()
+                if r < 0.08:
+                    step["during"] = {"install": rng.random() < 0.4}
+                elif r < 0.14:
+                    step["during"] = {"scan": rng.random() < 0.5}
+                elif r < 0.17:
+                    step["during"] = {"scan": rng.random() < 0.7, "install": rng.random() < 0.3}
                 steps.append(step)
             cases.append({"profile": profile, "env0": env0, "rec0": rec0 if (rec0 or rng.random() < 0.5) else None, "steps": steps})
         return cases
@@ -530,15 +560,17 @@ class InstallStream(Stream):
         for st, o in zip(case["steps"], obs["steps"]):
             sin = "{| si_ext := %s; si_allow := %s; si_files := %s; si_index := %s; si_fail := %s |}" % (
                 qlist(f"({qs(k)}, {qopt(qs(v) if v is not None else None)})" for k, v in st.get("ext", [])),
-                "true" if st["allow"] else "false", qfiles(st["files"], o["order"]), qalist(st.get("index", [])),
+                "true" if o["gate_allow"] else "false", qfiles(st["files"], o["order"]), qalist(st.get("index", [])),
                 qlist(qs(p) for p in st.get("fail", [])))
             args = None if o["args"] is None else qlist(qs(a) for a in o["args"])
             steps.append("{| hs_in := %s; hs_table := %s; hs_env_before := %s; hs_kind := %d%%N; hs_args := %s; hs_rec_start := %s; hs_pers_start := %s; "
                          "hs_rec_after := %s; "
-                         "hs_persisted := %s; hs_updated := %s; hs_env_after := %s |}" % (
+                         "hs_persisted := %s; hs_updated := %s; hs_allow_user := %s; hs_allow_live := %s; hs_allow_pers := %s; "
+                         "hs_env_after := %s |}" % (
                              sin, qrows(o["table"]), qalist(o["env_before"]), o["kind"], qopt(args), qalist(o["rec_start"]), qalist(o["pers_start"]),
                              qalist(o["rec_after"]),
-                             qalist(o["persisted"]), "true" if o["updated"] else "false", qalist(o["env_after"])))
+                             qalist(o["persisted"]), "true" if o["updated"] else "false", "true" if o["allow_user"] else "false",
+                             "true" if o["allow_live"] else "false", "true" if o["allow_pers"] else "false", qalist(o["env_after"])))
         return "{| hc_ranks := %s; hc_env0 := %s; hc_rec0 := %s; hc_steps := %s |}" % (
             qranks(obs["ranks"]), qalist(case.get("env0", [])), qalist(case.get("rec0") or []), qlist(steps))
 
@@ -560,7 +592,8 @@ class InstallStream(Stream):
 
     def describe(self, case, obs):
         return {"profile": case.get("profile"), "installed0": case.get("env0"), "record0": case.get("rec0"),
-                "steps": [{"allow": s["allow"], "before_pass": o.get("events"), "installer_fails_for": s.get("fail"),
+                "steps": [{"allow": s["allow"], "before_pass": o.get("events"), "during_run": s.get("during"), "fired": o.get("fired"),
+                           "allow_user_live_persisted_after": [o.get("allow_user"), o.get("allow_live"), o.get("allow_pers")], "installer_fails_for": s.get("fail"),
                            "record_at_start": o["rec_start"], "external": s.get("ext"), "files": [(f["dir"], f["lines"]) for f in s["files"]],
                            "installer_args": o["args"], "record_after": o["rec_after"], "persisted_record": o["persisted"],
                            "update_entry_called": o["updated"], "raised": o["error"]}
